@@ -148,6 +148,29 @@ def wire_checks(ctx):
             problems.append(dict(kind="kill-target", target=c1.blocked_on(), other=conns[2][0].blocked_on(), issuer=c0.blocked_on()))
         if conns[1][1] in ctl._connections:
             problems.append(dict(kind="not-removed", id=conns[1][1]))
+        # the id KILL accepts is the VALUE of its argument: hex / bit literals, strings of digits
+        envk = impl.Env(own_sleep=False)
+        try:
+            ctlk = impl.LoggingControl(envk, server_id=0)
+            srvk = impl.make_server(envk, S, control=ctlk)
+            ks = []
+            for k in range(18):
+                ck = impl.Conn(envk, srvk, cid=k)
+                envk.settle()
+                tidk = cl.parse_handshake_v10(cl.reassemble(ck.take())[0][1])["thread_id"]
+                ck.feed(cl.frame(cl.handshake_response(user=b"u"), 1)); ck.take()
+                ks.append((ck, tidk))
+            for stmt, target in ((b"KILL 0x10", 16), (b"KILL b'11'", 3), (b"KILL QUERY 0x0C", None), (b"KILL '1_2'", None), (b"KILL '7'", 7)):
+                alive_before = {t for c_, t in ks if c_.blocked_on() != "done"}
+                ks[17][0].feed(cl.frame(bytes([cl.COM_QUERY]) + stmt, 0))
+                rk = cl.reassemble(ks[17][0].take())
+                ended = sorted(alive_before - {t for c_, t in ks if c_.blocked_on() != "done"})
+                want = [target] if target is not None and b"QUERY" not in stmt else []
+                if ended != want:
+                    problems.append(dict(kind="kill-literal", statement=stmt.decode(), names_connection=target, connections_ended=ended,
+                                         reply=[cl.kind_of(p, cl.BASE_CAPS) for _, p, _ in rk]))
+        finally:
+            envk.close()
         # full registry
         W = ctl._MAX_CONNECTION_SEQ
         prefix = 300 << 16
@@ -159,6 +182,8 @@ def wire_checks(ctx):
         pk = cl.reassemble(c.take())
         if not (len(pk) == 1 and cl.kind_of(pk[0][1], 0) == "ERR" and cl.err_code(pk[0][1]) == 1040 and c.blocked_on() == "done"):
             problems.append(dict(kind="full-registry", got=[(cl.kind_of(p, 0), p[:12].hex()) for _, p, _ in pk], state=c.blocked_on()))
+        if not c.writer.closed:
+            problems.append(dict(kind="refused-client-left-connected", note="after ERR 1040 the server's side of the socket stays open: the refused client is never disconnected"))
         victim = prefix + 777
         ctl._connections.pop(victim)
         c = impl.Conn(env, srv, cid=11)
